@@ -1744,7 +1744,14 @@ func (f *fragment) topBitmapPairs(rowIDs []uint64) []bitmapPair {
 
 	// Otherwise retrieve specific rows.
 	pairs := make([]bitmapPair, 0, len(rowIDs))
+	seen := make(map[uint64]struct{}, len(rowIDs))
 	for _, rowID := range rowIDs {
+		// A row requested more than once is reported once.
+		if _, ok := seen[rowID]; ok {
+			continue
+		}
+		seen[rowID] = struct{}{}
+
 		// Look up cache first, if available.
 		if n := f.cache.Get(rowID); n > 0 {
 			pairs = append(pairs, bitmapPair{
